@@ -113,6 +113,10 @@ def instantiate(ci, supplied, nextras, byname, rng):
                                        length=rng.choice([3, 4, 6, 9]))
         else:
             o, _s = dictx.make_generic(rng) if i % 2 == 0 else dictx.make_avp(byname["ClassAVP"], rng)
+        if i >= 1 and rng.random() < 0.5:
+            # another AVP object with exactly the content of the previous extra (two equal Route-Record / Class AVPs are two AVPs)
+            from bromelia.base import DiameterAVP as _DA
+            o = _DA.load(extras[-1].dump())[0]
         extras.append(o)
         kwargs["extra_avp_%d" % (i + 1)] = o
     if ci["app"] == "arg:auth_application_id" and "auth_application_id" in kwargs:
